@@ -248,6 +248,14 @@ func TestHead(t *testing.T) {
 				ex := newExchange(t, hosts[0], trusted, 0)
 				time.Sleep(time.Second)
 				synctest.Wait()
+				if mbt.Bool(in, "fallback") {
+					// replay-only dimension: every connection is closed first, so the peer tracker is empty and a request with
+					// a trusted head falls back to (re-dialled) trusted peers — whose answers must be verified all the same
+					for i := 1; i <= n; i++ {
+						_ = net.DisconnectPeers(hosts[0].ID(), hosts[i].ID())
+					}
+					synctest.Wait()
+				}
 				type out struct {
 					h   *vh.Header
 					err error
